@@ -13,6 +13,7 @@
               (recomputed hash throws, or Bucket::AddCrt cannot allocate); [] = no more failures
    Section parameters = everything that differs between bucket kinds / hash functions / key categories. *)
 From Coq Require Import ZArith List Lia Bool Permutation.
+From C11 Require ProbeSeq.
 Import ListNotations.
 Local Open Scope Z_scope.
 
@@ -49,7 +50,8 @@ Inductive op : Type :=
 | OReserve (n : Z) (refuse : bool) (sch : list bool)
 | OTraverse
 | OCount
-| OClear (shrink : bool).
+| OClear (shrink : bool)
+| ORemoveIf (m r : Z).                         (* Remove(filter) with filter(k) = (k mod m == r) *)
 
 Inductive mstat : Type := MOk | MStop | MTerm.   (* migration: completed | stopped by a swallowed failure | std::terminate *)
 
@@ -378,6 +380,35 @@ Section GrowModel.
   Definition upd_gen (gs : list table) (gi : nat) (f : table -> table) : list table :=
     match nth_error gs gi with Some t => upd_nth gi (f t) gs | None => gs end.
 
+  (* ---- Remove(filter), 879-893: iter = GetBegin(); while (iter) { if (filter(item)) iter = Remove(iter); else ++iter; }
+     Remove(iter) = pvRemove 1187-1205: the generation is found by pvFindBuckets, Bucket::Remove moves the last item into
+     the hole, --mCount, and the returned iterator is constructed AT the hole (same bucket, same offset, chain from that
+     generation on) and pvInc'ed.  chain = all generations; the iterator's own chain gs is a suffix of it. *)
+  Fixpoint remif (fuel : nat) (f : Z -> bool) (chain : list table) (it : iter) (cnt : Z) : option (list table * Z) :=
+    match it with
+    | IEnd => Some (chain, cnt)
+    | IAt gs bi p =>
+      match fuel with
+      | O => None
+      | S fu =>
+        if f (it_deref it) then
+          let g := (length chain - length gs)%nat in
+          match find_buckets chain (Z.of_nat bi) g p with
+          | None => None                                          (* MOMO_ASSERT(false) *)
+          | Some g' =>
+            let chain' := upd_gen chain g' (fun t => tremove t (Z.of_nat bi) p) in
+            remif fu f chain' (pv_inc (skipn g' chain') bi p) (cnt - 1)
+          end
+        else remif fu f chain (pv_inc gs bi p) cnt
+      end
+    end.
+
+  Definition hremove_if (s : hset) (f : Z -> bool) : option (hset * out) :=
+    match remif (Z.to_nat (count s)) f (gens s) (it_begin s) (count s) with
+    | None => None
+    | Some (gs, c) => Some (mkH gs c (capacity s), RNum (count s - c))
+    end.
+
   (* one public operation; None = the process called std::terminate *)
   Definition step (s : hset) (o : op) : option (hset * out) :=
     match o with
@@ -401,6 +432,7 @@ Section GrowModel.
     | OTraverse => Some (s, RList (traverse_it s))
     | OCount => Some (s, RNum (count s))
     | OClear shrink => Some (hclear s shrink, RUnit)
+    | ORemoveIf m r => hremove_if s (fun k => k mod m =? r)
     end.
 
   Fixpoint run (s : hset) (os : list op) : option (hset * list out) :=
@@ -1239,6 +1271,7 @@ Section GrowModel.
     | OTraverse => exists l, r = RList l /\ Permutation l A /\ NoDup l
     | OCount => r = RNum (Z.of_nat (length A))
     | OClear _ => r = RUnit
+    | ORemoveIf m q => r = RNum (Z.of_nat (length (filter (fun k => k mod m =? q) A)))
     end.
 
   Definition abs_after (A : list Z) (o : op) (r : out) (A' : list Z) : Prop :=
@@ -1246,6 +1279,7 @@ Section GrowModel.
     | OInsert k _ _ _ _, RInserted => Permutation A' (k :: A)
     | ORemove k, RRemoved true => Permutation A (k :: A')
     | OClear _, _ => A' = []
+    | ORemoveIf m q, _ => Permutation A' (filter (fun k => negb (k mod m =? q)) A)
     | _, _ => Permutation A' A
     end.
 
@@ -1400,6 +1434,204 @@ Section GrowModel.
   Lemma traverse_it_eq : forall s, Inv s -> traverse_it s = traverse s.
   Proof. intros s HI. unfold traverse_it. rewrite (iterator_walk s HI). auto. Qed.
 
+  (* ---- Remove(filter): the iterator loop with removals, across generations ---- *)
+  Definition sfx (gs chain : list table) : Prop := exists pre, chain = pre ++ gs.
+
+  Lemma pv_move_sfx : forall gs bi gs' b' p', pv_move gs bi = IAt gs' b' p' -> sfx gs' gs.
+  Proof.
+    induction gs as [|t rest IH]; intros bi gs' b' p' H; simpl in H; [discriminate|].
+    destruct (move_loop (Z.to_nat (bcount t)) t bi) as [[x y]|].
+    - inversion H; subst. exists []; auto.
+    - destruct rest as [|t2 r2]; [discriminate|]. destruct (bcnt t2 0).
+      + apply IH in H. destruct H as (pre & E). exists (t :: pre). simpl. rewrite E. auto.
+      + inversion H; subst. exists [t]; auto.
+  Qed.
+
+  Lemma firstn_upd_nth : forall A p (x : A) l, firstn p (upd_nth p x l) = firstn p l.
+  Proof. induction p; destruct l; simpl; auto. rewrite IHp. auto. Qed.
+
+  Lemma skipn_upd_nth : forall A p (x : A) l, skipn (S p) (upd_nth p x l) = skipn (S p) l.
+  Proof. induction p; destruct l; simpl; auto. apply IHp. Qed.
+
+  Lemma bremove_firstn : forall l p, (p < length l)%nat -> firstn p (bremove p l) = firstn p l.
+  Proof.
+    intros l p H. unfold bremove. destruct (rev l) as [|z r] eqn:E.
+    { apply (f_equal (@rev Z)) in E. rewrite rev_involutive in E. subst. simpl in H. lia. }
+    assert (L : l = rev r ++ [z]).
+    { apply (f_equal (@rev Z)) in E. rewrite rev_involutive in E. simpl in E. auto. }
+    rewrite L. rewrite removelast_last. rewrite L, app_length in H. simpl in H.
+    destruct (Nat.eqb_spec p (length (rev r))).
+    - subst p. rewrite firstn_app. rewrite Nat.sub_diag. simpl. rewrite app_nil_r. auto.
+    - rewrite firstn_upd_nth. rewrite firstn_app. replace (p - length (rev r))%nat with 0%nat by lia. simpl. rewrite app_nil_r. auto.
+  Qed.
+
+  Lemma filter_perm : forall (f : Z -> bool) l l', Permutation l l' -> Permutation (filter f l) (filter f l').
+  Proof.
+    induction 1; simpl; auto.
+    - destruct (f x); auto.
+    - destruct (f x); destruct (f y); auto. apply perm_swap.
+    - eapply Permutation_trans; eauto.
+  Qed.
+
+  Lemma filter_split_length : forall (f : Z -> bool) l,
+    (length (filter f l) + length (filter (fun x => negb (f x)) l))%nat = length l.
+  Proof. induction l; simpl; auto. destruct (f a); simpl; lia. Qed.
+
+  Lemma find_buckets_at : forall chain g t bi p, nth_error chain g = Some t -> bi < bcount t ->
+    (p < length (items (getb t bi)))%nat -> find_buckets chain bi g p = Some g.
+  Proof.
+    intros chain g t bi p N HB HP. unfold find_buckets. destruct chain as [|t0 [|t1 r]].
+    - destruct g; discriminate.
+    - destruct g as [|[|g]]; simpl in N; try discriminate. auto.
+    - apply (find_buckets_loop_spec (t0 :: t1 :: r) bi p g 0%nat t N HB HP).
+  Qed.
+
+  Lemma app_eq_len : forall A (l1 l1' a b : list A), length l1 = length l1' -> l1 ++ a = l1' ++ b -> l1 = l1' /\ a = b.
+  Proof.
+    induction l1 as [|x l1 IH]; destruct l1' as [|y l1']; simpl; intros u v L E; try discriminate; auto.
+    inversion E; subst. destruct (IH l1' u v) as (E1 & E2); auto. subst; auto.
+  Qed.
+
+  Lemma remif_spec : forall fuel f chain it cnt V,
+    Forall tinv chain ->
+    match it with IEnd => True | IAt gs bi p => sfx gs chain /\ gs <> [] /\ (p < bcnt (hd (mkT 0 []) gs) bi)%nat end ->
+    Permutation (allkeys chain) (V ++ rem_it it) -> (length (rem_it it) <= fuel)%nat ->
+    exists chain' cnt', remif fuel f chain it cnt = Some (chain', cnt') /\ Forall tinv chain' /\
+      map tlog chain' = map tlog chain /\
+      Permutation (allkeys chain') (V ++ filter (fun x => negb (f x)) (rem_it it)) /\
+      cnt - cnt' = Z.of_nat (length (filter f (rem_it it))).
+  Proof.
+    induction fuel; intros f chain it cnt V HF HV HP HL; destruct it as [|gs bi p].
+    - exists chain, cnt. simpl. rewrite app_nil_r in *. repeat split; auto. lia.
+    - exfalso. destruct HV as ((pre & EC) & NE & HB). destruct gs as [|t rest]; [congruence|].
+      assert (VI : valid_it (IAt (t :: rest) bi p)).
+      { split; auto. rewrite EC in HF. apply Forall_app in HF. destruct HF as (_ & HF2).
+        eapply Forall_impl; [|apply HF2]. apply tinv_lenok. }
+      destruct (it_step _ _ _ VI) as (E & _). rewrite E in HL. simpl in HL. lia.
+    - exists chain, cnt. simpl. rewrite app_nil_r in *. repeat split; auto. lia.
+    - destruct HV as ((pre & EC) & NE & HB). destruct gs as [|t rest]; [congruence|]. simpl hd in HB.
+      assert (HFs : Forall tinv (t :: rest)) by (rewrite EC in HF; apply Forall_app in HF; tauto).
+      assert (HLs : Forall lenok (t :: rest)) by (eapply Forall_impl; [|apply HFs]; apply tinv_lenok).
+      assert (VI : valid_it (IAt (t :: rest) bi p)) by (split; auto).
+      destruct (it_step _ _ _ VI) as (E & VN). rewrite E in *. simpl in HL.
+      assert (SN : forall gs2, match pv_inc gs2 bi p with IEnd => True | IAt g2 b2 p2 => sfx g2 gs2 end).
+      { intros gs2. destruct p; simpl.
+        - destruct (pv_move gs2 bi) eqn:EM; auto. eapply pv_move_sfx; eauto.
+        - exists []; auto. }
+      set (x := it_deref (IAt (t :: rest) bi p)) in *.
+      change (remif (S fuel) f chain (IAt (t :: rest) bi p) cnt) with
+        (if f x then
+           match find_buckets chain (Z.of_nat bi) (length chain - length (t :: rest)) p with
+           | None => None
+           | Some g' => remif fuel f (upd_gen chain g' (fun t0 => tremove t0 (Z.of_nat bi) p))
+                          (pv_inc (skipn g' (upd_gen chain g' (fun t0 => tremove t0 (Z.of_nat bi) p))) bi p) (cnt - 1)
+           end
+         else remif fuel f chain (pv_inc (t :: rest) bi p) cnt).
+      destruct (f x) eqn:FX.
+      + (* the item is removed *)
+        assert (G : (length chain - length (t :: rest))%nat = length pre) by (rewrite EC, app_length; lia).
+        rewrite G.
+        assert (N : nth_error chain (length pre) = Some t) by (rewrite EC, nth_error_app2, Nat.sub_diag by lia; auto).
+        assert (Ht : tinv t) by (inversion HFs; auto). assert (HFr : Forall tinv rest) by (inversion HFs; auto).
+        unfold bcnt in HB.
+        assert (RB : (bi < length (tbs t))%nat).
+        { destruct (Nat.lt_ge_cases bi (length (tbs t))); auto. rewrite nth_overflow in HB by lia. simpl in HB. lia. }
+        assert (GB : getb t (Z.of_nat bi) = nth bi (tbs t) emptyB) by (unfold getb; rewrite Nat2Z.id; auto).
+        assert (HBc : Z.of_nat bi < bcount t).
+        { destruct Ht as (H0 & HLn & _). rewrite HLn in RB. pose proof (bcount_pos t H0). lia. }
+        rewrite (find_buckets_at chain (length pre) t (Z.of_nat bi) p N HBc) by (rewrite GB; auto).
+        assert (NX : nth_error (items (getb t (Z.of_nat bi))) p = Some x).
+        { rewrite GB. unfold x. simpl. apply nth_error_of_lt. auto. }
+        destruct (tremove_spec t (Z.of_nat bi) p x Ht NX) as (T1 & P1 & L1).
+        set (t' := tremove t (Z.of_nat bi) p) in *.
+        assert (EU : upd_gen chain (length pre) (fun t0 => tremove t0 (Z.of_nat bi) p) = pre ++ t' :: rest).
+        { unfold upd_gen. rewrite N. destruct (upd_nth_split _ (length pre) t' chain t N) as (l1 & l2 & E1 & E2 & E3).
+          change (tremove t (Z.of_nat bi) p) with t'. rewrite E2. rewrite EC in E1.
+          destruct (app_eq_len _ pre l1 (t :: rest) (t :: l2) (eq_sym E3) E1) as (Q1 & Q2). inversion Q2; subst l1 l2. auto. }
+        rewrite EU. rewrite skipn_app, skipn_all, Nat.sub_diag. simpl app. simpl skipn.
+        assert (HF' : Forall tinv (pre ++ t' :: rest)).
+        { rewrite EC in HF. apply Forall_app in HF. destruct HF as (HFp & _). apply Forall_app. split; auto. }
+        assert (HLs' : Forall lenok (t' :: rest)).
+        { constructor; [apply tinv_lenok; auto|]. inversion HLs; auto. }
+        assert (IT' : getb t' (Z.of_nat bi) = mkB (bremove p (items (getb t (Z.of_nat bi)))) (wasFull (getb t (Z.of_nat bi))) (bound (getb t (Z.of_nat bi)))).
+        { unfold t', tremove. apply getb_setb_same. rewrite Nat2Z.id. auto. }
+        assert (GB' : nth bi (tbs t') emptyB = getb t' (Z.of_nat bi)) by (unfold getb; rewrite Nat2Z.id; auto).
+        assert (RBE : rem_b t' bi = rem_b t bi).
+        { unfold rem_b, t', tremove, setb. cbn [tbs]. rewrite Nat2Z.id. rewrite skipn_upd_nth. auto. }
+        destruct (bremove_spec _ _ _ NX) as (_ & _ & LEN).
+        assert (REM : rem_it (pv_inc (t' :: rest) bi p) = rem_it (pv_inc (t :: rest) bi p) /\
+                      match pv_inc (t' :: rest) bi p with IEnd => True | IAt g2 b2 p2 => g2 <> [] /\ (p2 < bcnt (hd (mkT 0 []) g2) b2)%nat end).
+        { destruct p as [|p'].
+          - change (pv_inc (t' :: rest) bi 0) with (pv_move (t' :: rest) bi).
+            change (pv_inc (t :: rest) bi 0) with (pv_move (t :: rest) bi).
+            destruct (pv_move_spec (t' :: rest) HLs' bi t' rest eq_refl) as (V1 & R1).
+            destruct (pv_move_spec (t :: rest) HLs bi t rest eq_refl) as (V2 & R2).
+            rewrite R1, R2, RBE. split; auto.
+            destruct (pv_move (t' :: rest) bi) as [|g2 b2 p2]; auto. destruct V1 as (_ & V1). destruct g2; [tauto|]. split; [discriminate|auto].
+          - change (pv_inc (t' :: rest) bi (S p')) with (IAt (t' :: rest) bi p').
+            change (pv_inc (t :: rest) bi (S p')) with (IAt (t :: rest) bi p').
+            repeat rewrite rem_it_at. rewrite RBE, GB', IT'. simpl items. rewrite <- GB.
+            rewrite (bremove_firstn _ (S p')) by (rewrite GB; auto). split; auto.
+            split; [discriminate|]. simpl hd. unfold bcnt. rewrite GB', IT'. simpl items. rewrite <- GB in HB. lia. }
+        destruct REM as (RE & VN').
+        assert (PA : Permutation (allkeys chain) (x :: allkeys (pre ++ t' :: rest))).
+        { rewrite <- EU. unfold upd_gen. rewrite N. apply (allkeys_upd chain (length pre) t t' x N P1). }
+        destruct (IHfuel f (pre ++ t' :: rest) (pv_inc (t' :: rest) bi p) (cnt - 1) V HF') as (ch & c' & R & F2 & M2 & P2 & C2).
+        * destruct (pv_inc (t' :: rest) bi p) as [|g2 b2 p2] eqn:EI; auto. destruct VN' as (A1 & A2). split; [|split; auto].
+          pose proof (SN (t' :: rest)) as S1. rewrite EI in S1. destruct S1 as (pr2 & E2). exists (pre ++ pr2). rewrite E2, app_assoc. auto.
+        * rewrite RE. apply (Permutation_count_occ Z.eq_dec); intro y. count_hyp HP y. count_hyp PA y.
+          simpl in *. repeat rewrite count_occ_app in *. simpl in *. destruct (Z.eq_dec x y); lia.
+        * rewrite RE. lia.
+        * exists ch, c'. split; auto. split; auto. split.
+          { rewrite M2. rewrite EC. repeat rewrite map_app. simpl. try rewrite L1. auto. }
+          rewrite RE in *. simpl filter. rewrite FX. simpl. split; auto. simpl length. lia.
+      + (* the item stays *)
+        destruct (IHfuel f chain (pv_inc (t :: rest) bi p) cnt (V ++ [x]) HF) as (ch & c' & R & F2 & M2 & P2 & C2).
+        * destruct (pv_inc (t :: rest) bi p) as [|g2 b2 p2] eqn:EI; auto.
+          pose proof (SN (t :: rest)) as S1. rewrite EI in S1. destruct S1 as (pr2 & E2).
+          split; [exists (pre ++ pr2); rewrite EC, E2, app_assoc; auto|].
+          destruct VN as (_ & VN). destruct g2; [tauto|]. split; [discriminate|auto].
+        * rewrite <- app_assoc. auto.
+        * lia.
+        * exists ch, c'. split; auto. split; auto. split; auto. simpl filter. rewrite FX. simpl.
+          rewrite <- app_assoc in P2. split; auto.
+  Qed.
+
+  (* Remove(filter) in ANY state satisfying Inv: exactly the items satisfying the filter disappear, whatever generation
+     they are in; invariant, chain and table sizes are kept; the result is the number removed *)
+  Theorem hremove_if_spec : forall s f, Inv s ->
+    exists s', hremove_if s f = Some (s', RNum (Z.of_nat (length (filter f (abs s))))) /\ Inv s' /\
+      Permutation (abs s') (filter (fun x => negb (f x)) (abs s)) /\
+      map tlog (gens s') = map tlog (gens s) /\ capacity s' = capacity s.
+  Proof.
+    intros s f HI. pose proof HI as (HF & HD & HC & HN).
+    assert (HLk : Forall lenok (gens s)) by (eapply Forall_impl; [|apply HF]; apply tinv_lenok).
+    destruct (it_begin_spec s HLk) as (VB & RB). destruct (traverse_spec s HI) as (PT & NDT).
+    pose proof (Permutation_length PT) as LT.
+    assert (HV : match it_begin s with IEnd => True | IAt gs bi p => sfx gs (gens s) /\ gs <> [] /\ (p < bcnt (hd (mkT 0 []) gs) bi)%nat end).
+    { unfold it_begin in *. destruct (count s =? 0); auto. destruct (gens s) as [|t rest] eqn:EG; auto.
+      destruct (bcnt t 0) eqn:EB.
+      - destruct (pv_move (t :: rest) 0) as [|g2 b2 p2] eqn:EM; auto. split; [eapply pv_move_sfx; eauto|].
+        destruct VB as (_ & VB). destruct g2; [tauto|]. split; [discriminate|auto].
+      - split; [exists []; auto|]. split; [discriminate|]. simpl. lia. }
+    destruct (remif_spec (Z.to_nat (count s)) f (gens s) (it_begin s) (count s) [] HF HV) as (ch & c' & R & F2 & M2 & P2 & C2).
+    { rewrite RB. simpl. unfold traverse in *. destruct (count s =? 0) eqn:EZ.
+      - apply Z.eqb_eq in EZ. rewrite HC in EZ. destruct (abs s) eqn:EA; simpl in *; [unfold abs in EA; rewrite EA; auto|lia].
+      - apply Permutation_sym; auto. }
+    { rewrite RB, LT, HC, Nat2Z.id. lia. }
+    rewrite RB in *. simpl app in P2.
+    assert (PF : Permutation (allkeys ch) (filter (fun x => negb (f x)) (abs s))).
+    { eapply Permutation_trans; [apply P2|]. apply filter_perm; auto. }
+    assert (LF : length (filter f (traverse s)) = length (filter f (abs s))) by (apply Permutation_length, filter_perm; auto).
+    unfold hremove_if. rewrite R. exists (mkH ch c' (capacity s)).
+    assert (CE : count s - c' = Z.of_nat (length (filter f (abs s)))) by (rewrite <- LF; auto).
+    rewrite CE. split; auto. split; [|simpl; auto].
+    unfold Inv, abs; simpl. split; auto. split; [|split].
+    - eapply Permutation_NoDup; [apply Permutation_sym, PF|]. apply NoDup_filter. auto.
+    - apply Permutation_length in PF. rewrite PF. pose proof (filter_split_length f (abs s)). lia.
+    - intros HT. specialize (HN HT). apply (f_equal (@length Z)) in M2. repeat rewrite map_length in M2. lia.
+  Qed.
+
   Lemma hfind_none_notin : forall s k, Inv s -> hfind s k = None -> ~ In k (abs s).
   Proof. intros s k HI H Hin. destruct (hfind_complete s k HI Hin). congruence. Qed.
 
@@ -1456,6 +1688,8 @@ Section GrowModel.
       rewrite (traverse_it_eq _ HI). eauto.
     - inversion H; subst. split; auto. simpl. destruct HI as (_ & _ & HC & _). rewrite HC. auto.
     - inversion H; subst. destruct (hclear_spec _ shrink HI) as (A1 & A2). split; auto. simpl. auto.
+    - destruct (hremove_if_spec s (fun k => k mod m =? r0) HI) as (s1 & E & I1 & P1 & N1 & _).
+      rewrite H in E. inversion E; subst. split; auto. simpl. split; auto.
   Qed.
 
   (* relocate_interrupted_inv for every history and every schedule *)
@@ -1568,7 +1802,7 @@ Section GrowModel.
   Qed.
 
   (* ---- later_ops_complete_migration ---- *)
-  Hypothesis path_covers : forall bc hc i, 0 < bc -> 0 <= i < bc -> exists d, Z.of_nat d < bc /\ path bc hc d = i.
+  Hypothesis path_covers : forall L hc i, 0 <= L -> 0 <= i < 2 ^ L -> exists d, Z.of_nat d < 2 ^ L /\ path (2 ^ L) hc d = i.
   Hypothesis cc_le_phys : forall L, 0 <= L -> calcCapacity (2 ^ L) <= cap * 2 ^ L.
 
   Lemma relocate_head : forall nw olds sch gs', Forall tinv (nw :: olds) -> relocate (nw :: olds) sch = Some gs' ->
@@ -1600,7 +1834,7 @@ Section GrowModel.
     assert (AF : forall b, In b (tbs t) -> isFull b = true).
     { intros b Hb. apply In_nth_error in Hb. destruct Hb as [i Hi].
       pose proof (nth_error_some_lt _ _ _ _ Hi) as Li. destruct Ht as (H0 & HLn & _). rewrite HLn in Li.
-      destruct (path_covers (bcount t) (h k) (Z.of_nat i) BP ltac:(lia)) as (d & Hd & Ed).
+      destruct (path_covers (tlog t) (h k) (Z.of_nat i) H0 ltac:(unfold bcount in *; lia)) as (d & Hd & Ed). fold (bcount t) in Hd, Ed.
       pose proof (add_loop_none _ _ _ _ EL d ltac:(lia)) as FD. rewrite Ed in FD.
       unfold getb in FD. rewrite Nat2Z.id in FD. rewrite (nth_error_nth' _ _ _ emptyB _ Hi) in FD. auto. }
     pose proof (full_count _ AF). destruct Ht as (H0 & HLn & _). rewrite HLn in H. unfold tkeys in HL.
@@ -1641,6 +1875,44 @@ Section GrowModel.
     apply Permutation_length in P1. simpl in P1. rewrite app_length in P1.
     destruct (reloc_buckets_ok (tbs g) nw1 T1) as (bs' & nw2 & E2). { unfold bcount in *. rewrite L1. unfold tkeys in HL at 1. lia. }
     rewrite E2. eauto.
+  Qed.
+
+  (* ---- "Hash table is full" under refused growth = literally every slot of the table is taken ---- *)
+  Lemma forallb_false_ex : forall A (f : A -> bool) l, forallb f l = false -> exists x, In x l /\ f x = false.
+  Proof.
+    induction l; simpl; intros H; [discriminate|]. destruct (f a) eqn:E; simpl in H.
+    - destruct (IHl H) as (x & I & F). eauto.
+    - eauto.
+  Qed.
+
+  Theorem insert_fails_only_if_every_slot_taken : forall s t r k sch, Inv s -> gens s = t :: r -> ~ In k (abs s) ->
+    (count s <? capacity s) = false ->
+    ((exists b, In b (tbs t) /\ isFull b = false) ->
+       exists s', step s (OInsert k false false true sch) = Some (s', RInserted) /\ Inv s' /\
+                  Permutation (abs s') (k :: abs s) /\ capacity s' = capacity s /\ (length (gens s') <= length (gens s))%nat) /\
+    (step s (OInsert k false false true sch) = Some (s, RFull) ->
+       (forall b, In b (tbs t) -> isFull b = true) /\ cap * bcount t <= Z.of_nat (length (tkeys t))) /\
+    ((forall b, In b (tbs t) -> isFull b = true) -> step s (OInsert k false false true sch) = Some (s, RFull)).
+  Proof.
+    intros s t r k sch HI EG NI C1.
+    destruct (refused_growth_insert s t r k sch HI EG NI C1) as (RA & RB).
+    assert (Ht : tinv t). { destruct HI as (HF & _). rewrite EG in HF. inversion HF; auto. }
+    pose proof Ht as (H0 & HL & _). pose proof (bcount_pos t H0) as BP.
+    assert (EX : (exists b, In b (tbs t) /\ isFull b = false) ->
+                 exists d, Z.of_nat d < bcount t /\ isFull (getb t (path (bcount t) (h k) d)) = false).
+    { intros (b & Hb & NF). apply In_nth_error in Hb. destruct Hb as [i Hi].
+      pose proof (nth_error_some_lt _ _ _ _ Hi) as Li. rewrite HL in Li.
+      destruct (path_covers (tlog t) (h k) (Z.of_nat i) H0 ltac:(unfold bcount in *; lia)) as (d & Hd & Ed).
+      fold (bcount t) in Hd, Ed. exists d. split; auto. rewrite Ed. unfold getb. rewrite Nat2Z.id.
+      rewrite (nth_error_nth' _ _ _ emptyB _ Hi). auto. }
+    assert (ALL : (forall b, In b (tbs t) -> isFull b = true) ->
+                  forall d, Z.of_nat d < bcount t -> isFull (getb t (path (bcount t) (h k) d)) = true).
+    { intros HA d Hd. apply HA. unfold getb. apply nth_In. apply path_in_range; auto. }
+    split; [intros HE; apply RA; auto|]. split; [|intros HA; apply RB; auto].
+    intros HS. assert (AF : forall b, In b (tbs t) -> isFull b = true).
+    { destruct (forallb isFull (tbs t)) eqn:E; [apply forallb_forall; auto|].
+      destruct (RA (EX (forallb_false_ex _ _ _ E))) as (s' & HS' & _). rewrite HS in HS'. discriminate. }
+    split; auto. pose proof (full_count _ AF). rewrite HL in H. rewrite Z2Nat.id in H by lia. auto.
   Qed.
 
   (* ---- Reserve in a multi-generation state ---- *)
@@ -1685,7 +1957,7 @@ Section GrowModel.
     exists s1, step s (fresh_insert k) = Some (s1, RInserted) /\ Inv s1 /\ CapOk s1 /\
       Permutation (abs s1) (k :: abs s) /\ count s1 = count s + 1 /\
       ((count s < capacity s /\ capacity s1 = capacity s /\ (length (gens s1) <= length (gens s))%nat) \/
-       (capacity s <= count s /\ length (gens s1) = 1%nat)).
+       (capacity s <= count s /\ length (gens s1) = 1%nat /\ count s1 <= capacity s1)).
   Proof.
     intros s k HI (t & r & EG & HCap) NI.
     assert (ST : step s (fresh_insert k) = hadd s k false false []).
@@ -1744,7 +2016,7 @@ Section GrowModel.
       destruct (relocate_head _ _ _ _ HFt ER) as (nw2 & olds2 & EGS & LNW). inversion EGS; subst nw2 olds2.
       split; [unfold Inv; auto|]. split.
       { exists nw', []. simpl. split; auto. unfold bcount. rewrite LNW, L1. simpl. auto. }
-      split; [rewrite EK in A6; auto|]. split; [reflexivity|]. right. simpl. split; auto.
+      split; [rewrite EK in A6; auto|]. split; [reflexivity|]. right. simpl. split; auto. split; auto. lia.
   Qed.
 
   Lemma run_cons : forall s o os, run s (o :: os) =
@@ -1773,7 +2045,7 @@ Section GrowModel.
       split; auto. split; auto.
       intros HB. apply G.
       destruct C1 as (t1 & r1 & EG1 & _).
-      destruct D as [(D1 & D2 & D3)|(D1 & D2)]; [|auto].
+      destruct D as [(D1 & D2 & D3)|(D1 & D2 & _)]; [|auto].
       destruct HB as [HB|HB].
       + left. simpl length in HB. lia.
       + right. rewrite EG1 in *. simpl in *. lia.
@@ -1841,6 +2113,10 @@ Section GrowModel.
     - inversion H; subst; auto.
     - inversion H; subst. unfold CapInv, hclear in *. destruct (gens s) as [|t r0] eqn:EG; [rewrite EG; auto|].
       destruct shrink; simpl; auto.
+    - destruct (hremove_if_spec s (fun k => k mod m =? r0) HI) as (s1 & E & _ & _ & M & C). rewrite H in E. inversion E; subst.
+      unfold CapInv in *. rewrite C.
+      destruct (gens s) as [|t r1] eqn:EG; destruct (gens s1) as [|t1 r2] eqn:EG1; simpl in M; try discriminate; auto.
+      inversion M. unfold bcount. rewrite H1. auto.
   Qed.
 
   Theorem capinv_run : forall os s s' outs, Inv s -> CapInv s -> run s os = Some (s', outs) -> CapInv s'.
@@ -1953,7 +2229,7 @@ Section Final.
   (* additionally for later_ops_complete_migration: the probe sequence reaches every bucket (C13) and the
      capacity of a table never exceeds its physical size *)
   Definition kind_ok2 : Prop :=
-    (forall bc hc i, 0 < bc -> 0 <= i < bc -> exists d, Z.of_nat d < bc /\ path start next bc hc d = i) /\
+    (forall L hc i, 0 <= L -> 0 <= i < 2 ^ L -> exists d, Z.of_nat d < 2 ^ L /\ path start next (2 ^ L) hc d = i) /\
     (forall L, 0 <= L -> calcCapacity (2 ^ L) <= cap * 2 ^ L).
 
   (* capacities grow with the table size (so the size loop of pvAddGrow always ends): CalcCapacity(bc) >= (bc - 1) / 2 *)
@@ -2030,6 +2306,9 @@ Section Final.
     - inversion H; auto.
     - inversion H; auto.
     - inversion H; subst. intuition discriminate.
+    - unfold hremove_if in H.
+      match type of H with context [match ?X with Some _ => _ | None => _ end] => destruct X as [[gs2 c2]|] end;
+        inversion H; subst; intuition discriminate.
   Qed.
 
   Theorem grow_refused_insert_succeeds_unless_path_full : kind_ok -> kind_ok3 -> forall s t r k sch,
@@ -2064,6 +2343,21 @@ Section Final.
   Proof.
     intros s k gi idx pos HI E. eapply find_buckets_spec in E; eauto.
     Unshelve. all: try exact 0; try exact (fun _ => 0).
+  Qed.
+
+  (* Remove(filter) = the iterator loop with removals (pvRemove through pvFindBuckets, iterator re-seated at the hole) *)
+  Theorem remove_if_any_state : kind_ok -> forall s m q, Inv' s ->
+    exists s', step' s (ORemoveIf m q) = Some (s', RNum (Z.of_nat (length (filter (fun k => k mod m =? q) (abs B s))))) /\
+      Inv' s' /\ Permutation (abs B s') (filter (fun k => negb (k mod m =? q)) (abs B s)) /\
+      length (gens B s') = length (gens B s) /\ capacity B s' = capacity B s.
+  Proof.
+    intros (H1 & H2 & H3 & H4 & H5 & H6 & H7) s m q HI.
+    assert (X : exists s', hremove_if B b0 wf0 s (fun k => k mod m =? q) = Some (s', RNum (Z.of_nat (length (filter (fun k => k mod m =? q) (abs B s))))) /\ Inv' s' /\
+      Permutation (abs B s') (filter (fun x => negb ((fun k => k mod m =? q) x)) (abs B s)) /\
+      map (tlog B) (gens B s') = map (tlog B) (gens B s) /\ capacity B s' = capacity B s) by (eapply hremove_if_spec; eauto).
+    destruct X as (s' & E & I & P & M & C).
+    exists s'. split; [exact E|]. split; auto. split; auto. split; auto.
+    apply (f_equal (@length Z)) in M. repeat rewrite map_length in M. auto.
   Qed.
 
   (* traversal_once for the pvInc/pvMove state machine *)
@@ -2122,6 +2416,41 @@ Section Final.
       - unfold CapInv, hinit; simpl; auto. }
     eapply insert_never_check; [..|exact HS]; eauto.
   Qed.
+  (* the clause of the property, as stated: under refused growth a single-element insertion succeeds unless literally every
+     slot of the table (= of the probe path, which reaches every bucket) is taken *)
+  Theorem insert_fails_only_if_every_slot_on_probe_path_taken : kind_ok -> kind_ok2 -> kind_ok3 -> forall s t r k sch,
+    Inv' s -> gens B s = t :: r -> ~ In k (abs B s) -> (count B s <? capacity B s) = false ->
+    ((exists b, In b (tbs B t) /\ isFull B cap b = false) ->
+       exists s', step' s (OInsert k false false true sch) = Some (s', RInserted) /\ Inv' s' /\
+                  Permutation (abs B s') (k :: abs B s) /\ capacity B s' = capacity B s /\
+                  (length (gens B s') <= length (gens B s))%nat) /\
+    (step' s (OInsert k false false true sch) = Some (s, RFull) ->
+       (forall b, In b (tbs B t) -> isFull B cap b = true) /\ cap * bcount B t <= Z.of_nat (length (tkeys B t))) /\
+    ((forall b, In b (tbs B t) -> isFull B cap b = true) -> step' s (OInsert k false false true sch) = Some (s, RFull)).
+  Proof.
+    intros (H1 & H2 & H3 & H4 & H5 & H6 & H7) (K1 & K2) K3. intros.
+    eapply (insert_fails_only_if_every_slot_taken B b0 decode upd_bound h cap wf0 wfull start next logStart calcCapacity shift nothrowReloc); eauto.
+  Qed.
+
+  (* interplay with the size loop of pvAddGrow: after ANY history -- in particular any number k of consecutive refused
+     growths that overloaded the table -- a granted, failure-free insertion at a growth point picks a table that is large
+     enough (mCount <= mCapacity <= physical size), migrates EVERYTHING and leaves exactly one generation *)
+  Theorem granted_growth_after_refusals : kind_ok -> kind_ok2 -> kind_ok3 -> forall os ks s outs k,
+    run' (hinit B) (os ++ map (fun x => OInsert x false false true []) ks) = Some (s, outs) ->
+    gens B s <> [] -> ~ In k (abs B s) -> capacity B s <= count B s ->
+    exists s1, step' s (fresh_insert k) = Some (s1, RInserted) /\ Inv' s1 /\ length (gens B s1) = 1%nat /\
+               count B s1 = count B s + 1 /\ count B s1 <= capacity B s1 /\ CapOk B cap s1 /\
+               Permutation (abs B s1) (k :: abs B s).
+  Proof.
+    intros K K2 K3 os ks s outs k H HN NI HC.
+    pose proof (relocate_interrupted_inv K _ _ _ H) as HI.
+    pose proof (reachable_cap_ok K K2 _ _ _ H HN) as CO.
+    destruct K as (H1 & H2 & H3 & H4 & H5 & H6 & H7). destruct K2 as (K1 & K2').
+    destruct (fresh_insert_step B b0 decode upd_bound h cap wf0 wfull start next logStart calcCapacity shift nothrowReloc
+                H1 H7 H2 H3 H4 H5 H6 K3 K1 K2' s k HI CO NI) as (s1 & E & I1 & C1 & P1 & CN & D).
+    exists s1. destruct D as [(D1 & _)|(D1 & D2 & D3)]; [lia|]. repeat split; auto; apply I1.
+  Qed.
+
 End Final.
 
 (* ================================================================================================== *)
@@ -2158,7 +2487,8 @@ Lemma linear_kind_ok2 : forall c, 0 < c_cap c -> c_probe c = 0 ->
   kind_ok2 (c_cap c) start_mask (cfg_next c) (cfg_cc c).
 Proof.
   intros c H1 HP. unfold kind_ok2, cfg_next. rewrite HP. simpl. split.
-  - intros bc hc i Hbc Hi. exists (Z.to_nat ((i - hc) mod bc)).
+  - intros L hc i HL0 Hi. assert (Hbc : 0 < 2 ^ L) by (apply Z.pow_pos_nonneg; lia). set (bc := 2 ^ L) in *.
+    exists (Z.to_nat ((i - hc) mod bc)).
     pose proof (Z.mod_pos_bound (i - hc) bc Hbc). rewrite Z2Nat.id by lia. split; [lia|].
     rewrite path_linear by auto. rewrite Z2Nat.id by lia. rewrite Z.add_mod_idemp_r by lia.
     replace (hc + (i - hc)) with i by lia. apply Z.mod_small; auto.
@@ -2181,6 +2511,25 @@ Proof.
     + pose proof (Z.div_mod (y * 13) 14 ltac:(lia)); pose proof (Z.mod_pos_bound (y * 13) 14 ltac:(lia)); lia.
     + pose proof (Z.div_mod (y * 11) 12 ltac:(lia)); pose proof (Z.mod_pos_bound (y * 11) 12 ltac:(lia)); lia.
 Qed.
+
+Lemma path_probe_index : forall L hc d,
+  path start_mask next_tri (2 ^ L) hc d = ProbeSeq.probe_index next_tri L (start_mask hc (2 ^ L)) d.
+Proof. induction d; simpl; auto. rewrite IHd. auto. Qed.
+
+(* triangular probing (Open2N2 / Open8): coverage by the number-theoretic theorem copied from C13 (ProbeSeq.v) *)
+Lemma tri_kind_ok2 : forall c, 0 < c_cap c -> c_probe c <> 0 ->
+  kind_ok2 (c_cap c) start_mask (cfg_next c) (cfg_cc c).
+Proof.
+  intros c H1 HP. destruct (linear_kind_ok2 (mkCfg 0 (c_policy c) (c_cap c) (c_wf0 c) (c_logStart c) (c_dist c) (c_nothrow c) (c_wfodd c)) H1 eq_refl) as (_ & CC).
+  unfold kind_ok2, cfg_next. apply Z.eqb_neq in HP. rewrite HP. split; [|exact CC].
+  intros L hc i HL Hi. assert (Hbc : 0 < 2 ^ L) by (apply Z.pow_pos_nonneg; lia).
+  assert (SR : 0 <= start_mask hc (2 ^ L) < 2 ^ L) by (unfold start_mask; apply Z.mod_pos_bound; auto).
+  destruct (ProbeSeq.probe_seq_covers next_tri L HL (fun i0 p0 _ _ => eq_refl) (start_mask hc (2 ^ L)) i SR Hi) as (p & Hp & Ep).
+  exists p. split; auto. rewrite path_probe_index. auto.
+Qed.
+
+Lemma concrete_kind_ok2 : forall c, 0 < c_cap c -> kind_ok2 (c_cap c) start_mask (cfg_next c) (cfg_cc c).
+Proof. intros c H. destruct (Z.eq_dec (c_probe c) 0); [apply linear_kind_ok2|apply tri_kind_ok2]; auto. Qed.
 
 Fixpoint cfg_run (c : config) (s : hset Z) (os : list op) : option (hset Z * list out) :=
   match os with
